@@ -24,7 +24,9 @@ RULE = ('correspondence cases: one case = one ordered pair (A, B) of constructor
         'argument pair in which at least one of the two denoted sets is non-empty')
 EXPLANATION = ('Unbounded Coq theorems about the hand model Model/IntegerSet.v: constructor and every set operation return '
                'the canonical form and denote exactly the set-algebra result; contains, cardinality, iteration and == agree '
-               'with the denoted set.  The model/implementation correspondence and the Python-set oracle are the tie to the '
+               'with the denoted set; algebraic laws hold as equalities of the returned ranges (union comm/assoc/idem, a&b == b&a, '
+               'a^b == (a|b)-(a&b), a-(b|c) == (a-b)&(a-c), a&b == a-(a-b)) with fuel bounds over the inputs only (results never '
+               'have more ranges than the operands).  The model/implementation correspondence and the Python-set oracle are the tie to the '
                'source (re-run on every check), not part of the proof')
 TRUSTED = ['coq/Model/IntegerSet.v is a hand transcription of ppci/utils/integer_set.py (cross-checked against the '
            'implementation on every run: >= 1300 argument pairs x 11 observations)',
@@ -41,7 +43,7 @@ ASSUMPTIONS = ['constructor arguments are ints or 2-tuples of ints (other types:
                'sys.maxsize members raises OverflowError in CPython (cardinality() does not)']
 
 MOD = 'Model.IntegerSetObs'
-PROOFS = ['Proofs/C33_intset.vo']
+PROOFS = ['Proofs/C33_intset.vo', 'Proofs/C33_laws.vo']
 
 
 # ------------------------------------------------------------------ input generation
@@ -222,6 +224,17 @@ def oracle_pair(ctx, IS, A, B, zs):
         for z in zs:
             if (z in a) != (z in ea):
                 return bad('contains', z in ea, z in a, [list(map(jsonable, A)), z]) and n
+        # algebraic laws through the implementation's own == (c33_union_laws, c33_inter_comm, c33_symdiff_law,
+        # c33_demorgan_law, c33_double_diff_law): equal sets must compare equal, so these follow from the property
+        c = IS(*(A[:1] + B[-1:]))
+        for (law, l, r) in (('a|b == b|a', a | b, b | a), ('(a|b)|c == a|(b|c)', (a | b) | c, a | (b | c)),
+                            ('a|a == a', a | a, a), ('a&b == b&a', a & b, b & a),
+                            ('a^b == (a|b)-(a&b)', a ^ b, (a | b) - (a & b)),
+                            ('a-(b|c) == (a-b)&(a-c)', a - (b | c), (a - b) & (a - c)),
+                            ('a&b == a-(a-b)', a & b, a - (a - b))):
+            n += 1
+            if not (l == r) or hash(l) != hash(r):
+                return bad('law ' + law, [list(x) for x in l.ranges], [list(x) for x in r.ranges]) and n
         return n
     except Exception as ex:   # noqa: BLE001
         bad('exception', 'no exception', repr(ex))
@@ -409,7 +422,9 @@ MANIFEST = {
     'text': 'proof: unbounded Coq theorems (every list of ranges over Z) that IntegerSet construction, union, intersection, '
             'difference and symmetric difference return the canonical form (sorted, non-overlapping, non-adjacent, non-empty '
             'ranges) and denote exactly the corresponding set-algebra result; that contains, cardinality, iteration and == agree '
-            'with the denoted set (canonical forms are unique, so equal sets compare equal)',
+            'with the denoted set (canonical forms are unique, so equal sets compare equal); set-algebra laws (union laws, '
+            'intersection commutes, a^b == (a|b)-(a&b), De Morgan for the relative complement, a&b == a-(a-b)) hold as equalities '
+            'of the returned representations',
     'note': 'the theorems are about a hand model (coq/Model/IntegerSet.v) of ppci/utils/integer_set.py; the model is tied to the '
             'source by a differential run on every check (all pairs of subsets of a 5-element universe, 7-element in the thorough '
             'tier, each written as arbitrary overlapping/adjacent/empty input ranges, plus random big ranges) and an independent '
